@@ -297,13 +297,18 @@ Proof.
   apply Hincl. apply in_seq. lia.
 Qed.
 
-Theorem intention_mono_correct b t A base :
-  wf t -> in_range (height t) A -> NoDup A -> opt_in_range (width t) base ->
+(* Listings: a listing with repeats denotes the set of its elements.  The code's length
+   shortcut is sound for duplicate-free listings; a listing with repeats is answered by the
+   complement scan, which only looks at membership, PROVIDED its length is not the number of
+   objects (then the shortcut fires although the set is not full - outside the property). *)
+Theorem intention_mono_correct_listing b t A base :
+  wf t -> in_range (height t) A -> (NoDup A \/ length A <> height t) -> opt_in_range (width t) base ->
   intention_monotone_i b t A base = int_mono_spec t A (default (all_attrs t) base).
 Proof.
-  intros Hwf HA Hnd Hbase. unfold intention_monotone_i, int_mono_spec, diff.
+  intros Hwf HA Hnd' Hbase. unfold intention_monotone_i, int_mono_spec, diff.
   destruct (Nat.eqb_spec (length A) (height t)) as [E|NE].
   - (* every object is in A: the complement is empty *)
+    assert (Hnd : NoDup A) by (destruct Hnd' as [H|H]; [exact H | contradiction]).
     assert (Hemp : filter (fun x => negb (mem x A)) (seq 0 (height t)) = []).
     { rewrite filter_ext_in' with (q := fun _ => false).
       - clear. induction (seq 0 (height t)); simpl; auto.
@@ -321,6 +326,11 @@ Proof.
         specialize (H g Hg). unfold I in H. rewrite Hc in H. discriminate.
     + intros g Hg. apply filter_In in Hg. destruct Hg as [Hg _]. apply in_seq in Hg. lia.
 Qed.
+
+Theorem intention_mono_correct b t A base :
+  wf t -> in_range (height t) A -> NoDup A -> opt_in_range (width t) base ->
+  intention_monotone_i b t A base = int_mono_spec t A (default (all_attrs t) base).
+Proof. intros Hwf HA Hnd Hbase. apply intention_mono_correct_listing; auto. Qed.
 
 (* ------------------------------------------------------------------ by-name wrappers *)
 
